@@ -53,9 +53,19 @@ def run_tlc(module, cfg, workers=8, timeout=600, env=None, extra=(), coverage=Fa
     spec_dir = spec_dir or SPEC_DIR
     meta = tempfile.mkdtemp(prefix="rigverif-tlc-")
     res = TLCResult()
+    # on an oversubscribed machine (many checks at once) more worker threads only add contention: the result of a
+    # TLC run does not depend on the number of workers (a job that asks for ONE worker keeps it: TLCSet registers)
+    if workers > 1 and not simulate:
+        try:
+            load = os.getloadavg()[0] / (os.cpu_count() or 1)
+        except OSError:
+            load = 0
+        if load > 1.5:
+            workers = max(2, min(workers, int(workers / load) or 2))
+        # ParallelGC starts one GC thread per core otherwise
     try:
         cfg_path = cfg if os.path.isabs(cfg) else os.path.join(spec_dir, "cfg", cfg)
-        cmd = ["java", "-XX:+UseParallelGC", "-Xmx" + heap]
+        cmd = ["java", "-XX:+UseParallelGC", "-XX:ParallelGCThreads=%d" % max(2, min(8, workers)), "-Xmx" + heap]
         if dfs_queue:
             cmd.append("-Dtlc2.tool.queue.IStateQueue=StateDeque")
         cmd += ["-cp", JAR_CP, "tlc2.TLC",
